@@ -7,11 +7,13 @@ HARNESSES = {
     "tstamp": dict(src=["harness/h_tstamp.cpp"], flavour="asan"),
     "tables": dict(src=["harness/h_tables.cpp"], flavour="asan"),
     "writers": dict(src=["harness/h_writers.cpp"], flavour="asan"),
+    "mt": dict(src=["harness/h_mt.cpp"], flavour="tsan", libs=["-lrapidcheck", "-lpthread"]),
     "crash": dict(src=["harness/h_crash.cpp"], flavour="asan", ldflags=["-rdynamic"], libs=["-lrapidcheck", "-ldl"]),
 }
 
 ENGINE_TEXT = {
     "codec": "rapidcheck + exhaustive choice-tree enumeration on CdnsEncoder/CdnsDecoder, ASan+UBSan",
+    "mt": "generated thread workloads under ThreadSanitizer, sequential vs concurrent differential",
     "crash": "rapidcheck scenarios x exhaustive crash/fault points; write/writev/rename interposed in the executable; fork per crash point; ASan+UBSan",
     "writers": "rapidcheck + enumerated large-chunk classes on CborOutputWriter/Gzip/Xz writers, ASan+UBSan",
     "tstamp": "exhaustive grid + rapidcheck on Timestamp with __int128 reference, ASan+UBSan",
@@ -251,5 +253,18 @@ PROPS = {
         technique="property-based testing with fault injection: generated scenarios x exhaustive fault-point enumeration, signature-based known findings",
         assumptions=["a persistent failure is tied to the file (device, inode), not to the descriptor number"],
         jobs=[dict(harness="crash", prop="c16_faults", cases=(480, 32000), size=(30, 60))],
+    ),
+
+    "C20": dict(
+        rule="T in {2,3,4,5,8,12,16} threads, each assigned 1..3 generated workloads: export generated records to its own output (name or fd, none/gzip/xz, with rotations), read a pre-generated "
+             "file back and render preamble/blocks/records with string(), build and copy blocks, Timestamp arithmetic; in 1/3 of the cases all threads run the same workload class. All workloads are "
+             "generated and run once sequentially in the main thread, then run concurrently from threads started on a barrier. Oracle: no ThreadSanitizer report (library and harness built with "
+             "-fsanitize=thread, halt_on_error) and every result (output bytes hash, rendered text hash, indices) identical to the sequential run. Non-trivial: >=2 threads were simultaneously inside "
+             "the same workload class (atomic overlap counters).",
+        level_text="generated concurrent workloads under ThreadSanitizer's happens-before detection plus differential against sequential execution",
+        level_note="only executed code can race; uninstrumented zlib/liblzma internals are invisible; the claim is 'no shared mutable state is touched by the generated workloads', not schedule completeness",
+        technique="property-based testing: generated thread workloads, TSan race detection + sequential/concurrent differential",
+        assumptions=["outputs of a workload are deterministic when run alone (checked: the sequential reference is compared with the concurrent run)"],
+        jobs=[dict(harness="mt", prop="c20_threads", cases=(160, 6000), size=(20, 40), args=["--shrink-budget", "60"])],
     ),
 }
